@@ -1,0 +1,49 @@
+//go:build verif
+
+package eval
+
+import (
+	"bufio"
+	"strings"
+	"ti/base"
+	"ti/lexer"
+	"ti/lexer/reader"
+	"ti/parser"
+)
+
+// VerifBlockParametersSpec describes one resolution of declared block parameters against a
+// receiver: the declared types, the receiver, the number of block variables and the
+// evaluated arguments of the call (for UnifyArgument).
+type VerifBlockParametersSpec struct {
+	Declared []*base.VerifT `json:"declared"`
+	Recv     *base.VerifT   `json:"recv"`
+	Count    int            `json:"count"`
+	Args     []*base.VerifT `json:"args"`
+}
+
+type VerifBlockParametersResult struct {
+	Params []*base.VerifT `json:"params"`
+	Recv   *base.VerifT   `json:"recv"` // the receiver afterwards
+}
+
+// VerifBlockParameters runs Do.appendParameterBeforeTypeCalculate over the declared types in
+// order, as setBlockParameters does.
+func VerifBlockParameters(s *VerifBlockParametersSpec) *VerifBlockParametersResult {
+	p := parser.New(lexer.New(reader.New(*bufio.NewReader(strings.NewReader("")))), "verif.rb")
+	var argTs []*base.T
+	for _, a := range s.Args {
+		argTs = append(argTs, base.VerifFromProjection(a))
+	}
+	p.SetTmpEvaluaetdArgs(argTs)
+	recvT := base.VerifFromProjection(s.Recv)
+	d := &Do{}
+	var params []base.T
+	for _, t := range s.Declared {
+		params = d.appendParameterBeforeTypeCalculate(&p, *base.VerifFromProjection(t), *recvT, params, s.Count)
+	}
+	res := &VerifBlockParametersResult{Recv: recvT.VerifProject()}
+	for i := range params {
+		res.Params = append(res.Params, params[i].VerifProject())
+	}
+	return res
+}
